@@ -515,6 +515,7 @@ func urlencode(data map[string]string) string {
 
 func (client *Client) send(ctx context.Context, call *Call) {
 	verifhook.Hit("client.send.enter", call)
+	defer verifhook.Hit("client.send.exit", call)
 
 	// Register this call.
 	client.mutex.Lock()
